@@ -17,6 +17,7 @@ RULE = ("per value an encoding in DER, a BER variant (incl. indefinite lengths),
         ">= 6 octets so that split points fall strictly inside members; distinct by (type, value, syntax, encoding)")
 SYN = ["der", "ber", "oer", "xer", "cxer"]
 
+K_STRCHAIN = "ber.restart.indefinite-tag-chain-before-constructed-string"
 KNOWN_CLASSES = {
     "tagchain.four-or-more.der": lambda f, s: "tagchain>=4" in f,
     "int.beyond-long.xer": lambda f, s: s in ("xer", "cxer") and "int.beyond-long" in f,
@@ -71,8 +72,11 @@ def run_case(sess, mod, tname, t, x, feats, acc):
     elif syn == "ber":
         ch = ListChooser(decisions)
         ch.no_mixed_chain = True        # C03's known finding; C05 is about restartability, not acceptance
+        ch.no_indef_chain_on_strings = KNOWN.is_known(PID, K_STRCHAIN) and not getattr(acc, "probe", False)
         enc = ref_ber.encode(mod, t, v, ch)
         used = ch.used
+        if getattr(ch, "suppressed_indef_string_chain", 0):
+            acc.excluded["known:%s (chain forced definite)" % K_STRCHAIN] += ch.suppressed_indef_string_chain
     else:
         r = sess.cmd("enc %s %s %s" % (tname, drv.hexs(refder), syn))
         if "inject" in r or r.get(syn) in (None, "fail", "nocodec"):
@@ -85,8 +89,13 @@ def run_case(sess, mod, tname, t, x, feats, acc):
     if len(enc) == 0:
         acc.excluded["empty-encoding"] += 1
         return None
-    # every split point up to 1500 octets (exhaustive), a uniform sample of ~500 split points beyond
-    step = 1 if len(enc) <= 1500 else max(1, len(enc) // 500)
+    if len(enc) > 20000 and not getattr(acc, "probe", False):
+        # (split points) x (one full decode + one prefix decode) under the sanitizers: minutes per case, and a time
+        # limit is not an oracle; large inputs are C04/C15's business
+        acc.excluded["encoding too large for the split enumeration (> 20000 octets)"] += 1
+        return None
+    # every split point up to 1500 octets (exhaustive), a uniform sample of ~300 split points beyond
+    step = 1 if len(enc) <= 1500 else max(1, len(enc) // 300)
     reply = sess.cmd("splitall %s %s %s %d" % (tname, dsyn, drv.hexs(enc), step))
     if reply["_status"] == "nocodec":
         acc.excluded["nocodec." + syn] += 1
